@@ -22,6 +22,12 @@ func init() {
 		Run: func(s *kernel.Sim) { runC10(s, "C10") },
 	})
 	Register(&Scenario{
+		Name: "c02_billing_conc", Property: "C02", MaxSteps: 30000, Quick: 250, Thorough: 20000,
+		Doc:  "the c10 burst world judged by billing only: overlapping and back-to-back keep-alives of the same and of different clients must move every balance by what some one-at-a-time order gives - in particular no stretch of time is billed twice",
+		Real: worldReal, Stub: worldStub,
+		Run:  func(s *kernel.Sim) { runC10(s, "C02") },
+	})
+	Register(&Scenario{
 		Name: "c01_ledger_conc", Property: "C01", MaxSteps: 30000, Quick: 250, Thorough: 20000,
 		Doc:  "the c10 burst world judged by the ledger only: at quiescence after concurrent keep-alives (with real badger conflicts) the credit sum is what it was before the burst",
 		Real: worldReal, Stub: worldStub,
@@ -147,15 +153,16 @@ func (x *snapStore) NodePeers(id store.NodeID) ([]store.Node, error) {
 type holderRange struct{ lo, hi *big.Int }
 
 type burstTask struct {
-	name  string
-	kind  string // update | peer | addnode
-	a     *Actor
-	peers []string
-	nonce int64
-	dupOf int // index of the task whose signed request this one copies, or -1
-	ok    bool
-	err   error
-	reply string // credit in the reply, if any
+	name   string
+	kind   string // update | peer | addnode
+	a      *Actor
+	peers  []string
+	nonce  int64
+	dupOf  int // index of the task whose signed request this one copies, or -1
+	ok     bool
+	err    error
+	reply  string // credit in the reply, if any
+	target *Actor // addnode: the node being linked
 }
 
 func runC10(s *kernel.Sim, prop string) {
@@ -241,8 +248,17 @@ func runC10(s *kernel.Sim, prop string) {
 		return new(big.Int).Set(&b.Credit)
 	}
 	initial := map[string]*big.Int{}
+	startHolder := map[string]string{}
 	for _, a := range w.Actors {
+		startHolder[a.ID] = holder(a.ID)
 		initial[holder(a.ID)] = credit(a.ID)
+	}
+	// nodes still on their trial balance can be linked to the second wallet during the burst
+	var trialNodes []*Actor
+	for _, a := range w.Actors {
+		if strings.HasPrefix(startHolder[a.ID], "node:") {
+			trialNodes = append(trialNodes, a)
+		}
 	}
 	ledBefore, _, _ := w.LedgerSum()
 	lastSeen := map[string]time.Time{}
@@ -252,6 +268,9 @@ func runC10(s *kernel.Sim, prop string) {
 	}
 
 	// --- burst (yields on)
+	if s.Choose("sched", 3) != 0 {
+		s.Sched = kernel.SchedPriority
+	}
 	s.SetYield("store", cfg.StoreYields)
 	s.SetYield("storeret", 1)
 	if cfg.TxnYields && cfg.Driver == "badger" {
@@ -283,6 +302,13 @@ func runC10(s *kernel.Sim, prop string) {
 			}
 		}
 		bt.peers = tracked[bt.a.ID]
+		if bt.kind == "addnode" {
+			if len(trialNodes) == 0 {
+				bt.kind = "peer"
+			} else {
+				bt.target = trialNodes[s.Choose("linktarget", len(trialNodes))]
+			}
+		}
 		tasks = append(tasks, bt)
 		// each task gets its own connection so that requests of one identity can overlap
 		conn := w.Dial(bt.a)
@@ -303,9 +329,9 @@ func runC10(s *kernel.Sim, prop string) {
 				var resp pool.PeerResponse
 				err = conn.Agent.Call(ctx, &resp, "vipnode_peer", bt.a.Signed("vipnode_peer", bt.nonce, pool.PeerRequest{Num: 1 + len(bt.name)%3})...)
 			case "addnode":
-				// links the last client (never a holder that receives credit) to the second wallet
-				target := clients[len(clients)-1]
-				err = conn.Agent.Call(ctx, nil, "pool_addNode", w.Wallets[1].WSigned("pool_addNode", bt.nonce, target.ID)...)
+				// links a node that is still on its trial balance (it may be credited or debited at
+				// this very moment) to the second wallet: its trial credit must move with it
+				err = conn.Agent.Call(ctx, nil, "pool_addNode", w.Wallets[1].WSigned("pool_addNode", bt.nonce, bt.target.ID)...)
 			}
 			mu.Lock()
 			bt.ok, bt.err, bt.reply = err == nil, err, reply
@@ -395,7 +421,7 @@ func runC10(s *kernel.Sim, prop string) {
 			}
 		}
 	}
-	if prop == "C10" && !s.Violated() {
+	if (prop == "C10" || prop == "C02") && !s.Violated() {
 		// serialisability of the resulting balances: interval arithmetic over the charge
 		want := map[string]*holderRange{}
 		get := func(h string) *holderRange {
@@ -412,7 +438,10 @@ func runC10(s *kernel.Sim, prop string) {
 			}
 			e := burstStart.Sub(lastSeen[a.ID])
 			lo := creditFor(e, cfg.Price, cfg.Interval)
-			hi := creditFor(e+burstDur, cfg.Price, cfg.Interval)
+			// every acknowledged keep-alive may bill up to the instant its handler read the clock
+			// again after stamping the check-in (even a serial execution does): one burst
+			// duration of slack per acknowledged keep-alive; a stretch billed twice is seconds, not microseconds
+			hi := creditFor(e+burstDur*time.Duration(1+acked[a.ID]), cfg.Price, cfg.Interval)
 			uniq := map[string]bool{}
 			for _, p := range tracked[a.ID] {
 				uniq[p] = true
@@ -434,11 +463,24 @@ func runC10(s *kernel.Sim, prop string) {
 				continue
 			}
 			seen[h] = true
-			init := initial[h]
-			if init == nil || (linked && a == clients[len(clients)-1]) {
-				// the holder changed during the burst (account linking): judged by the ledger sum
-				continue
+			// what this holder started with: the credit of every start holder whose nodes ended up
+			// here (a trial balance migrates with its node), plus the wallet's own prior credit
+			init := new(big.Int)
+			srcs := map[string]bool{}
+			if strings.HasPrefix(h, "acct:") {
+				srcs[h] = true
 			}
+			for _, b := range w.Actors {
+				if holder(b.ID) == h {
+					srcs[startHolder[b.ID]] = true
+				}
+			}
+			for src := range srcs {
+				if v := initial[src]; v != nil {
+					init.Add(init, v)
+				}
+			}
+			_ = linked
 			delta := new(big.Int).Sub(credit(a.ID), init)
 			r := want[h]
 			if r == nil {
@@ -531,6 +573,9 @@ func runC07Race(s *kernel.Sim) {
 		if s.Choose("settlefail", 5) == 0 {
 			w.Set.FailAt[k] = true
 		}
+	}
+	if s.Choose("sched", 3) != 0 {
+		s.Sched = kernel.SchedPriority
 	}
 	s.SetYield("store", cfg.StoreYields)
 	s.SetYield("storeret", 1)
@@ -638,6 +683,9 @@ func runC09Race(s *kernel.Sim) {
 	})
 	if r := s.Drive(kernel.DriveOpts{IdleCap: time.Hour}); r != kernel.Done || !ready {
 		return
+	}
+	if s.Choose("sched", 3) != 0 {
+		s.Sched = kernel.SchedPriority
 	}
 	s.SetYield("postwrite", cfg.PostWrite)
 	s.SetYield("op", 3)
